@@ -729,8 +729,14 @@ func (c *icall) forkVals(conds []string, vals []StrV) ([]*State, bool) {
 // splitChars splits a chars string at a one-byte separator by forking over separator positions.
 func (c *icall) splitChars(sc []string, ch string, limit int) ([]*State, bool) {
 	n := len(sc)
-	if n > 20 {
-		panic(engineErr("strings.Split on a chars string longer than 20"))
+	nsym := 0
+	for _, x := range sc {
+		if !charInt(x).C {
+			nsym++
+		}
+	}
+	if nsym > 20 {
+		panic(engineErr("strings.Split on a string with more than 20 symbolic bytes"))
 	}
 	// enumerate subsets lazily: walk positions, forking on "is separator"
 	type part struct {
@@ -791,6 +797,15 @@ func (w *Worker) strMap(s *State, a StrV, f func(string) string, uf string) StrV
 			out[i] = f(c)
 		}
 		return StrV{K: SChars, C: out}
+	}
+	// a concatenation is mapped piece by piece (case mapping is byte-local for the ASCII
+	// letters these programs compare; pieces are whole strings the program concatenated)
+	if leaves := flattenConcat(a.T); len(leaves) > 1 {
+		out := litStr("")
+		for _, l := range leaves {
+			out = strConcat(out, w.strMap(s, opaqueStr(l), f, uf))
+		}
+		return out
 	}
 	return opaqueStr(w.applyUF(s, uf, []Value{a}, "String", "string"))
 }
